@@ -224,3 +224,133 @@ pub fn bcf_read_lazy_records(bytes: &[u8], skip: usize, max: usize) -> Result<Ve
         Ok(out)
     })
 }
+
+// ------------------------------------------------------------------------------------------------
+// multi-record files: every way of reading them back, each record turned into the model as soon as
+// it is produced (a reused buffer is overwritten by the next read)
+
+use crate::model::Rec;
+
+pub const READ_APIS: [&str; 5] = ["reuse-loop", "record_bufs", "fresh-buffer", "lazy-reuse-loop", "lazy-records"];
+
+/// Header + records as one VCF text file.
+pub fn vcf_write_file(h: &vcf::Header, recs: &[RecordBuf]) -> Result<Vec<u8>, Fail> {
+    guard(|| {
+        let mut w = vcf::io::Writer::new(Vec::new());
+        w.write_header(h).map_err(ioe)?;
+        for r in recs {
+            w.write_variant_record(h, r).map_err(ioe)?;
+        }
+        Ok(w.into_inner())
+    })
+}
+
+/// Reads a whole VCF text file through read API number `api` (see `READ_APIS`).
+pub fn vcf_read_file(bytes: &[u8], api: usize, max: usize) -> Result<Vec<Rec>, Fail> {
+    guard(|| {
+        let mut r = vcf::io::Reader::new(bytes);
+        let h = r.read_header().map_err(|e| format!("read_header: {}", ioe(e)))?;
+        let mut out = Vec::new();
+        match api {
+            0 => {
+                let mut rb = RecordBuf::default();
+                while r.read_record_buf(&h, &mut rb).map_err(|e| format!("record {}: {}", out.len(), ioe(e)))? != 0 {
+                    out.push(Rec::from_record_buf(&rb));
+                    if out.len() > max {
+                        break;
+                    }
+                }
+            }
+            1 => {
+                for x in r.record_bufs(&h) {
+                    let rb = x.map_err(|e| format!("record {}: {}", out.len(), ioe(e)))?;
+                    out.push(Rec::from_record_buf(&rb));
+                    if out.len() > max {
+                        break;
+                    }
+                }
+            }
+            2 => loop {
+                let mut rb = RecordBuf::default();
+                if r.read_record_buf(&h, &mut rb).map_err(|e| format!("record {}: {}", out.len(), ioe(e)))? == 0 || out.len() > max {
+                    break;
+                }
+                out.push(Rec::from_record_buf(&rb));
+            },
+            3 => {
+                let mut rec = vcf::Record::default();
+                while r.read_record(&mut rec).map_err(|e| format!("record {}: {}", out.len(), ioe(e)))? != 0 {
+                    out.push(Rec::from_variant(&h, &rec).map_err(|e| format!("record {}: {e}", out.len()))?);
+                    if out.len() > max {
+                        break;
+                    }
+                }
+            }
+            _ => {
+                for x in r.records() {
+                    let rec = x.map_err(|e| format!("record {}: {}", out.len(), ioe(e)))?;
+                    out.push(Rec::from_variant(&h, &rec).map_err(|e| format!("record {}: {e}", out.len()))?);
+                    if out.len() > max {
+                        break;
+                    }
+                }
+            }
+        }
+        Ok(out)
+    })
+}
+
+/// Reads a whole raw BCF stream through read API number `api`.
+pub fn bcf_read_file(bytes: &[u8], api: usize, max: usize) -> Result<Vec<Rec>, Fail> {
+    guard(|| {
+        let mut r = bcf::io::Reader::from(bytes);
+        let h = r.read_header().map_err(|e| format!("read_header: {}", ioe(e)))?;
+        let mut out = Vec::new();
+        match api {
+            0 => {
+                let mut rb = RecordBuf::default();
+                while r.read_record_buf(&h, &mut rb).map_err(|e| format!("record {}: {}", out.len(), ioe(e)))? != 0 {
+                    out.push(Rec::from_record_buf(&rb));
+                    if out.len() > max {
+                        break;
+                    }
+                }
+            }
+            1 => {
+                for x in r.record_bufs(&h) {
+                    let rb = x.map_err(|e| format!("record {}: {}", out.len(), ioe(e)))?;
+                    out.push(Rec::from_record_buf(&rb));
+                    if out.len() > max {
+                        break;
+                    }
+                }
+            }
+            2 => loop {
+                let mut rb = RecordBuf::default();
+                if r.read_record_buf(&h, &mut rb).map_err(|e| format!("record {}: {}", out.len(), ioe(e)))? == 0 || out.len() > max {
+                    break;
+                }
+                out.push(Rec::from_record_buf(&rb));
+            },
+            3 => {
+                let mut rec = bcf::Record::default();
+                while r.read_record(&mut rec).map_err(|e| format!("record {}: {}", out.len(), ioe(e)))? != 0 {
+                    out.push(Rec::from_variant(&h, &rec).map_err(|e| format!("record {}: {e}", out.len()))?);
+                    if out.len() > max {
+                        break;
+                    }
+                }
+            }
+            _ => {
+                for x in r.records() {
+                    let rec = x.map_err(|e| format!("record {}: {}", out.len(), ioe(e)))?;
+                    out.push(Rec::from_variant(&h, &rec).map_err(|e| format!("record {}: {e}", out.len()))?);
+                    if out.len() > max {
+                        break;
+                    }
+                }
+            }
+        }
+        Ok(out)
+    })
+}
